@@ -82,12 +82,15 @@ def safe_instr(rng, mode, labels_all):
     return ("mn", rng.choice(G.SHIFT), [G.reg(rng.choice(regs)), G.imm(rng.choice([1, 3, 7]))])
 
 
-def data_stmt(rng, defined):
+def data_stmt(rng, defined, equs=()):
     d = rng.choice(["DB", "DW", "DD"])
     ops = []
     for _ in range(rng.randrange(1, 5)):
         r = rng.random()
-        if d == "DB" and r < 0.2:
+        if equs and r > 0.75:
+            ops.append(rng.choice([A.ident(rng.choice(equs)), A.sum_of([("+", ("id", rng.choice(equs))), ("+", ("num", rng.randrange(1, 9)))]),
+                                   A.add([("+", ("mul", ("id", rng.choice(equs)), [("*", ("num", 2))]))])]))
+        elif d == "DB" and r < 0.2:
             ops.append(A.string(rand_string(rng)))
         elif r < 0.3 and defined and d != "DB":
             ops.append(A.ident(rng.choice(defined)))
@@ -125,6 +128,7 @@ def gen_program(rng, mode=16, org=None, nstmts=20, jumps=True, equ=True, dollar=
     body = []
     pos = sorted(rng.sample(range(nstmts + 1), min(nlab, nstmts + 1)))
     defined = []
+    equs = []
     k = 0
     since_label = 0
     for j in range(nstmts + 1):
@@ -137,12 +141,18 @@ def gen_program(rng, mode=16, org=None, nstmts=20, jumps=True, equ=True, dollar=
             break
         r = rng.random()
         if r < 0.25:
-            body.append(data_stmt(rng, defined))
+            body.append(data_stmt(rng, defined, equs))
         elif r < 0.3:
             body.append(("mn", "RESB", [A.num(rng.choice([0, 1, 2, 5, 16]))]))
-        elif r < 0.33 and equ:
-            body.append(("equ", "K%d" % j, const_exp_nz(rng, 2)))
-        elif r < 0.36 and dollar:
+        elif r < 0.35 and equ:
+            # small values, so that a use as an immediate stays inside the forms gosk encodes correctly
+            val = A.num(rng.randrange(0, 100)) if not equs or rng.random() < 0.6 else A.sum_of([("+", ("id", rng.choice(equs))), ("+", ("num", rng.randrange(0, 20)))])
+            body.append(("equ", "K%d" % j, val))
+            equs.append("K%d" % j)
+        elif r < 0.40 and equs:
+            w = 16 if mode == 16 else 32
+            body.append(("mn", "MOV", [G.reg(rng.choice(G.WIDTH[rng.choice([8, w])])), A.ident(rng.choice(equs))]))
+        elif r < 0.43 and dollar:
             body.append(("mn", "DW", [A.ident("$")]))
         elif r < 0.48 and jumps and defined and since_label < 6:
             # backward short jump to the most recent label (a handful of small statements away)
